@@ -388,12 +388,31 @@ Fixpoint list_eqb {A} (eqb : A -> A -> bool) (a b : list A) : bool :=
 Definition opt_eqb_with {A} (eqb : A -> A -> bool) (a b : option A) : bool :=
   match a, b with Some x, Some y => eqb x y | None, None => true | _, _ => false end.
 
-(* (font, definition, what intersecting_patches returned, what select_next_patches(..).uris() returned) *)
-Definition case_ty := (list table * sdef * option (list obs_cand) * option (list Z))%type.
-Definition check_case (c : case_ty) : bool :=
-  let '(f, d, o_off, o_sel) := c in
-  opt_eqb_with (list_eqb obs_eqb) (option_map (map cand_obs) (offered f d)) o_off
-  && opt_eqb_with zlist_eqb (option_map group_uris (select_next f d)) o_sel.
+(* apply_next_patches on a PatchGroup whose `patches` is None: nothing to apply = EmptyPatchList *)
+Definition apply_round (og : option group) (pd : pdata) (patch_ok : bool) : option pdata :=
+  match og with None => None | Some g => apply_next g pd patch_ok end.
 
-(* (group as selected from case inputs, patch_data before, patch_ok, patch_data after / None = Err):
-   extension-loop bookkeeping cases *)
+(* observed patch_data: (uri, is_pending) sorted by uri *)
+Definition pd_of (l : list (Z * bool)) : pdata :=
+  map (fun kv => (fst kv, if snd kv : bool then Pending else Applied)) l.
+Definition status_eqb (a b : status) : bool :=
+  match a, b with Pending, Pending => true | Applied, Applied => true | _, _ => false end.
+Definition pd_eqb (a b : pdata) : bool :=
+  list_eqb (fun x y => (fst x =? fst y) && status_eqb (snd x) (snd y)) a b.
+(* one round of the real extension loop run with no-op table-keyed patches (patch application itself
+   succeeds): patch_data before, patch_data after / None = apply_next_patches returned Err *)
+Definition round_obs := (list (Z * bool) * option (list (Z * bool)))%type.
+Definition check_round (sel : option (option group)) (r : round_obs) : bool :=
+  match sel with
+  | None => false
+  | Some og => opt_eqb_with pd_eqb (apply_round og (pd_of (fst r)) true) (option_map pd_of (snd r))
+  end.
+
+(* (font, definition, what intersecting_patches returned, what select_next_patches(..).uris() returned,
+    rounds of apply_next_patches on that selection) *)
+Definition case_ty := (list table * sdef * option (list obs_cand) * option (list Z) * list round_obs)%type.
+Definition check_case (c : case_ty) : bool :=
+  let '(f, d, o_off, o_sel, rounds) := c in
+  opt_eqb_with (list_eqb obs_eqb) (option_map (map cand_obs) (offered f d)) o_off
+  && opt_eqb_with zlist_eqb (option_map group_uris (select_next f d)) o_sel
+  && forallb (check_round (select_next f d)) rounds.
